@@ -25,26 +25,26 @@ theorem xsd_complete (d : ClassDiagram) (comp : Nat) :
       (d.classes.filter (fun c => containedIn d.containers comp c.parent)).map (fun c => some c.kl) := by
   unfold xsd
   rw [classNodes_render]
-  show (((d.classes.filter (fun c => containedIn d.containers comp c.parent)).map (xclassOf d)).map renderClass).map _ = _
+  show (((d.classes.filter (fun c => containedIn d.containers comp c.parent)).map (xclassAll d)).map renderClass).map _ = _
   simp only [List.map_map]
   apply List.map_congr_left
   intro c _
   simp only [Function.comp, renderClass_name]
   rfl
 
-/-- per class, the declared attributes (name, type) are exactly `xattr` of its modeled attributes, in
-    modeled order -/
+/-- per class, the declared attributes (name, type) are exactly `xattr` of ALL its attributes related across R102:
+    those off the R103 chain (`looseOf`, R103 is conditional) and those on it, the latter in modeled order -/
 theorem xsd_complete_attributes (d : ClassDiagram) (comp : Nat) :
     (classNodes (xsd d comp)).map (fun n => (attributeNodes n).map (fun a => (a.attr "name", a.attr "type"))) =
       (d.classes.filter (fun c => containedIn d.containers comp c.parent)).map
-        (fun c => (c.attrs.filterMap (xattr d)).map (fun a => (some a.name, some a.ty))) := by
+        (fun c => ((looseOf d c.id ++ c.attrs).filterMap (xattr d)).map (fun a => (some a.name, some a.ty))) := by
   unfold xsd
   rw [classNodes_render]
-  show (((d.classes.filter (fun c => containedIn d.containers comp c.parent)).map (xclassOf d)).map renderClass).map _ = _
+  show (((d.classes.filter (fun c => containedIn d.containers comp c.parent)).map (xclassAll d)).map renderClass).map _ = _
   simp only [List.map_map]
   apply List.map_congr_left
   intro c _
-  simp only [Function.comp, attributeNodes_renderClass, List.map_map]
+  simp only [Function.comp, attributeNodes_renderClass, List.map_map, xclassAll, xclassOf, List.filterMap_append]
   apply List.map_congr_left
   intro a _
   simp only [Function.comp, renderAttr_name, renderAttr_type]
@@ -134,7 +134,7 @@ theorem xsd_spec_meaning {d : ClassDiagram} (xwf : XWF d) (comp : Nat) :
 
 /-- class elements: exactly the classes whose containment chain reaches the component -/
 theorem xsd_complete_rel {d : ClassDiagram} (xwf : XWF d) (comp : Nat) (xc : XClass) :
-    xc ∈ (xsdSpec d comp).classes ↔ ∃ c ∈ d.classes, Reaches d.containers comp c.parent ∧ xc = xclassOf d c :=
+    xc ∈ (xsdSpec d comp).classes ↔ ∃ c ∈ d.classes, Reaches d.containers comp c.parent ∧ xc = xclassAll d c :=
   xsd_classes_rel xwf.tree comp xc
 
 /-- attributes: declared iff not derived and the data type of the attribute (for a referential one: of the base
@@ -380,7 +380,7 @@ def d1 : ClassDiagram :=
       ⟨41, 1, .simple ⟨2, true, true, "is owned by"⟩ ⟨1, false, false, "owns"⟩ [⟨23, 11⟩], .pkg 5⟩] }
 
 theorem d1_xwf : XWF d1 := by
-  refine ⟨?_, by decide, by decide, ?_, ?_⟩
+  refine ⟨?_, by decide, by decide, ?_, ?_, rfl⟩
   · constructor <;> decide
   · exact ⟨⟨fun p => match p with
         | .none => 0 | .comp 6 => 1 | .pkg 5 => 2 | .pkg 7 => 1 | _ => 0,
@@ -449,6 +449,14 @@ example :
         classes := [⟨1, "K", [⟨11, "x", .base 50⟩, ⟨12, "y", .base 51⟩], [], .comp 6⟩],
         rels := [] }
     xsdSpec d 6 = ⟨[.enumeration "" ["a"]], "Comp", [⟨"K", []⟩]⟩ := by decide
+
+/-- attributes off the R103 chain (R103 is conditional): `build_class` iterates R102 and declares them too -/
+example :
+    let d : ClassDiagram :=
+      { containers := [⟨true, 6, "Comp", .none⟩], dts := [⟨102, "integer", .core 2, .none⟩],
+        classes := [⟨1, "K", [⟨11, "first", .base 102⟩], [], .comp 6⟩], rels := [],
+        loose := [(1, ⟨12, "unchained", .base 102⟩), (9, ⟨13, "elsewhere", .base 102⟩)] }
+    (xsdSpec d 6).classes = [⟨"K", [⟨"unchained", "integer"⟩, ⟨"first", "integer"⟩]⟩] := by decide
 
 /-- names with XML-special characters survive the file: `a&b<c>"d` is written `a&amp;b&lt;c&gt;&quot;d` -/
 example : escAttr "a&b<c>\"d".toList = "a&amp;b&lt;c&gt;&quot;d".toList ∧
